@@ -159,7 +159,7 @@ def ws_formula(rng, f):
     return "".join(out)
 
 
-def gen_adf(rng, nmax=8, depth=4, style=0, layout=None, degenerate=True):
+def gen_adf(rng, nmax=8, depth=4, style=0, layout=None, degenerate=True, repeat_ac=False):
     layout = layout or {}
     n = 1 + rng.below(nmax)
     names = gen_names(rng, n, style)
@@ -181,7 +181,7 @@ def gen_adf(rng, nmax=8, depth=4, style=0, layout=None, degenerate=True):
         if layout.get("ws"):
             f = ws_formula(rng, f)
         conds.append((nm, f))
-        if degenerate and mode == 3 and rng.chance(1, 5):  # repeated ac for the same statement
+        if repeat_ac and mode == 3 and rng.chance(1, 5):  # repeated ac for the same statement (not a well-formed ADF: parser tests only)
             conds.append((nm, gen_formula(rng, names, 2, nm)))
     return render_adf(rng, names, conds, layout), n
 
